@@ -141,3 +141,133 @@ func existingDatabase(run *vk.Run, scratch string) {
 		}
 	}
 }
+
+// existingDatabaseSideBySide: the copy of the pinned release's file has lost rows to a retention job
+// (two in the middle, the two newest); the tree under test opens it and appends; then a process of
+// the pinned release (its own SQL statements) appends an event and moves a saved offset on the same
+// file; then the tree under test opens it again. Offsets of existing events never change, new
+// appends get offsets above everything ever handed out, and what either release wrote is there.
+func existingDatabaseSideBySide(run *vk.Run, scratch string) {
+	ctx := context.Background()
+	_, self, _, _ := runtime.Caller(0)
+	src, err := os.Open(filepath.Join(filepath.Dir(self), "testdata", "pinned-release.db"))
+	if err != nil {
+		run.Inconclusive("fixture database missing: " + err.Error())
+		return
+	}
+	path := filepath.Join(scratch, fmt.Sprintf("c14-fixture-sbs-%d.db", os.Getpid()))
+	dst, _ := os.Create(path)
+	io.Copy(dst, src)
+	src.Close()
+	dst.Close()
+	defer func() { os.Remove(path); os.Remove(path + "-wal"); os.Remove(path + "-shm") }()
+	raw := func(f func(db *sql.DB) error) error {
+		db, err := sql.Open("sqlite", "file:"+path)
+		if err != nil {
+			return err
+		}
+		defer db.Close()
+		return f(db)
+	}
+	if err := raw(func(db *sql.DB) error {
+		_, err := db.Exec("DELETE FROM events WHERE position IN (3, 4, 24, 25)")
+		return err
+	}); err != nil {
+		run.Inconclusive("could not prune the fixture: " + err.Error())
+		return
+	}
+	run.Case("a pruned database file of the pinned release, written to by both releases", true)
+	bad := func(desc string) {
+		run.Violation("sqlite:existing-database-file", "a database file of the pinned release whose rows 3, 4, 24 and 25 were pruned, then used by the tree under test and by the pinned release side by side: "+desc, nil)
+	}
+	remaining := []int{1, 2}
+	for p := 5; p <= 23; p++ {
+		remaining = append(remaining, p)
+	}
+	check := func(round string, extra []string) bool {
+		st, err := sqlite.New(path)
+		if err != nil {
+			bad(round + ": open failed: " + err.Error())
+			return false
+		}
+		defer st.Close()
+		evs, _, err := st.Read(ctx, ebu.OffsetOldest, 0)
+		if err != nil || len(evs) != len(remaining)+len(extra) {
+			bad(fmt.Sprintf("%s: Read returned %d events (err %v), want %d", round, len(evs), err, len(remaining)+len(extra)))
+			return false
+		}
+		for i, pos := range remaining {
+			w := fixtureEvent(pos)
+			if string(evs[i].Offset) != fmt.Sprint(pos) || evs[i].Type != w.Type || string(evs[i].Data) != string(w.Data) {
+				bad(fmt.Sprintf("%s: the event of position %d came back with offset %q type %s data %s", round, pos, evs[i].Offset, evs[i].Type, evs[i].Data))
+				return false
+			}
+		}
+		for i, d := range extra {
+			if e := evs[len(remaining)+i]; string(e.Data) != d {
+				bad(fmt.Sprintf("%s: appended event %d reads %s %s, want data %s", round, i+1, e.Type, e.Data, d))
+				return false
+			}
+		}
+		n := 0
+		for _, err := range st.ReadStream(ctx, ebu.OffsetOldest) {
+			if err != nil {
+				bad(round + ": ReadStream yielded " + err.Error())
+				return false
+			}
+			n++
+		}
+		if n != len(evs) {
+			bad(fmt.Sprintf("%s: ReadStream yielded %d events, Read %d", round, n, len(evs)))
+			return false
+		}
+		return true
+	}
+	if !check("first open", nil) {
+		return
+	}
+	// the tree under test appends: above everything the file has ever handed out (25)
+	st, err := sqlite.New(path)
+	if err != nil {
+		bad("second open failed: " + err.Error())
+		return
+	}
+	off, err := st.Append(ctx, &ebu.Event{Type: "fixture.new", Data: json.RawMessage(`{"by":"tree under test"}`), Timestamp: time.Unix(1700001000, 0)})
+	var n int
+	fmt.Sscan(string(off), &n)
+	if err != nil || n <= 25 {
+		bad(fmt.Sprintf("Append after the pruning returned offset %q (err %v): offsets up to 25 had been handed out before", off, err))
+		st.Close()
+		return
+	}
+	st.SaveOffset(ctx, "fixture-sub", off)
+	st.Close()
+	// a process of the pinned release on the same file (its statements, verbatim)
+	var oldPos int64
+	if err := raw(func(db *sql.DB) error {
+		res, err := db.Exec("INSERT INTO events (type, data, timestamp) VALUES (?, ?, ?)", "fixture.old", []byte(`{"by":"pinned release"}`), time.Unix(1700002000, 0).UTC())
+		if err != nil {
+			return err
+		}
+		oldPos, _ = res.LastInsertId()
+		_, err = db.Exec(`INSERT INTO subscription_positions (subscription_id, position, updated_at) VALUES (?, ?, CURRENT_TIMESTAMP)
+			ON CONFLICT(subscription_id) DO UPDATE SET position = excluded.position, updated_at = CURRENT_TIMESTAMP`, "fixture-sub", oldPos)
+		return err
+	}); err != nil {
+		run.Count("side_by_side_writer_could_not_use_the_pinned_statements", 1) // (the schema no longer takes them: nothing to compare)
+		return
+	}
+	if !check("after the pinned release wrote to the file", []string{`{"by":"tree under test"}`, `{"by":"pinned release"}`}) {
+		return
+	}
+	st, err = sqlite.New(path)
+	if err != nil {
+		bad("last open failed: " + err.Error())
+		return
+	}
+	defer st.Close()
+	if o, err := st.LoadOffset(ctx, "fixture-sub"); err != nil || string(o) != fmt.Sprint(oldPos) {
+		bad(fmt.Sprintf("LoadOffset(fixture-sub) = %q, %v after the pinned release had saved position %d for it", o, err, oldPos))
+	}
+	run.Count("fixture_side_by_side_rounds", 1)
+}
